@@ -3,6 +3,8 @@
 1. TLC model-checks the payer's algorithm (spec/PaySendMC.tla: Retryable / Fulfilled / Abandoned, parts in
    flight, event queue, manager snapshot, restart, duplicate deliveries, idempotency timeout) composed with
    the observable specification spec/PaySend.tla; an observation the property forbids is a deadlock.
+   Stale = TRUE adds the restart from a snapshot the monitors have overtaken (channels closed, HTLCs re-added from
+   the monitors, missing ones failed), automatic retries, and the on-chain claim / timeout of HTLC outputs.
 2. The reachable quiescent states are printed as behaviours, compiled to scripts for the engine `paynet`
    (fan topology A-{B_k}-D, one part per branch) and executed on real ChannelManagers, together with seeded
    random scripts over line / fan / parallel-channel topologies (MPP, retries, keysend, abandon, duplicate
@@ -19,6 +21,11 @@ def pick(got, rng):
         return any(o["op"] in names for o in s["ops"])
     f = [s for s in got if s.get("feat")]
     rep = [s for s in f if any("repeated" in x for x in s["feat"])]
+    # stale restarts in which an HTLC is only in a monitor (re-added to / re-creating the payment), and those
+    # followed by an on-chain claim
+    st = [s for s in f if "stale-readd" in s["feat"] or ("stale-recreate" in s["feat"] and "chain-claim" in s["feat"])]
+    rng.shuffle(st)
+    rep = rep + st[:120]
     c = [s for s in got if not s.get("feat") and has(s, "deliver")]
     d = [s for s in got if not s.get("feat") and not has(s, "deliver")]
     for x in (f, c, d):
@@ -88,6 +95,46 @@ def _failed_early(r, k, recs):
             return [recs[pf[0]], r]
 
 
+def _onchain_claim_unreported(r, k, recs):
+    # the PaymentSent that follows the on-chain claim of the payment's HTLC output is dropped
+    if r["ev"] == "event" and r.get("kind") == "PaymentSent":
+        mine = [x for x in recs if x["run"] == r["run"]]
+        before = [x for x in recs[:k] if x["run"] == r["run"]]
+        if any(x["ev"] == "chain" and x["what"] == "htlc" and x["preimage"] and x["hash"] == r["hash"] for x in before) \
+                and sum(1 for x in mine if x["ev"] == "event" and x.get("kind") == "PaymentSent") == 1 \
+                and sum(1 for x in mine if x["ev"] == "send") == 1 \
+                and not any(x["ev"] == "deliver" and x["kind"] == "update_fulfill_htlc" and x["to"] == r["node"] for x in mine) \
+                and mine[-1]["ev"] == "quiet" and mine[-1].get("settled"):
+            return []
+
+
+def _failed_with_output_unspent(r, k, recs):
+    # PaymentFailed is moved in front of the confirmation of the timeout of one of the payment's HTLCs (the HTLC
+    # output is still unspent in the payer's confirmed commitment)
+    if r["ev"] == "chain" and r["what"] == "htlc" and not r["preimage"]:
+        mine = [x for x in recs if x["run"] == r["run"]]
+        before = [x for x in recs[:k] if x["run"] == r["run"]]
+        later = [x for x in recs[k + 1:] if x["run"] == r["run"]]
+        sends = [x for x in mine if x["ev"] == "send"]
+        adds = [x for x in before if x["ev"] == "msg" and x["kind"] == "update_add_htlc" and x["chan"] == r["chan"] and x["hash"] == r["hash"]]
+        pf = [x for x in later if x["ev"] == "event" and x.get("kind") == "PaymentFailed"]
+        if pf and len(sends) == 1 and sends[0]["res"] == "ok" and sends[0]["hash"] == r["hash"] and pf[0]["pid"] == sends[0]["pid"] \
+                and adds and all(x["from"] == sends[0]["node"] for x in adds) \
+                and not any(x["ev"] == "event" and x.get("kind") in ("PaymentFailed", "PaymentSent") for x in before) \
+                and not any(x["ev"] == "deliver" and x["kind"] in ("update_fulfill_htlc", "update_fail_htlc") and x["chan"] == r["chan"] for x in mine):
+            return [pf[0], r]
+
+
+def _forgotten_with_live_htlc(r, k, recs):
+    # list_recent_payments after a stale restart no longer lists a payment whose HTLC is later claimed on-chain
+    if r["ev"] == "recent" and r["after_restart"] and r["list"] and recs[k - 1]["ev"] == "restart" and recs[k - 1].get("stale"):
+        later = [x for x in recs[k + 1:] if x["run"] == r["run"]]
+        if any(x["ev"] == "event" and x.get("kind") == "PaymentSent" and x["node"] == r["node"] and x["pid"] == r["list"][0]["pid"]
+               for x in later):
+            r["list"] = r["list"][1:]
+            return [r]
+
+
 # Recorded finding (not part of the default runs: the engine restarts from a stale snapshot only if the node
 # was idle when it was taken): the snapshot is taken while payment 2 waits in the holding cell of the channel
 # (send_payment returned Ok); it is sent afterwards and becomes claimable at the recipient; the payer restarts
@@ -107,33 +154,58 @@ PROBES = [("stale_restart_forgets_holding_cell_htlc", {"cfg": {"topo": "line", "
         {"op": "send", "from": 0, "id": 1, "reg": 1, "paths": [[1, 3], [2, 4]], "amts": [2000000, 4000000], "fee_over": {"0:0": 0}},
         {"op": "pump"}, {"op": "save", "node": 0}, {"op": "tick", "node": 3}, {"op": "pump"},
         {"op": "send", "from": 0, "id": 1, "reg": 1, "paths": [[2, 4]], "amts": [6000000]}, {"op": "pump"},
-        {"op": "restart", "node": 0, "use": "stale", "allow_unclean": True}, {"op": "settle"}]})]
+        {"op": "restart", "node": 0, "use": "stale", "allow_unclean": True}, {"op": "settle"}]}),
+    # third recorded finding: the snapshot was written after the send; the payment completes, the user handles
+    # PaymentSent (which releases the monitor update that removes the HTLC), the manager is not persisted again;
+    # restart from the snapshot: the HTLC is "missing in the ChannelMonitor" and the payment is reported failed.
+    # (The library documents this window -- events/mod.rs, Event::PaymentFailed: "In exceedingly rare cases ... an
+    # Event::PaymentFailed is generated for a payment after an Event::PaymentSent ... MUST be ignored" -- while the
+    # property says an event is "never contradicted": recorded as a finding, not judged in the default runs.)
+    ("stale_restart_fails_after_handled_payment_sent", {"cfg": {"topo": "line", "n": 3}, "ops": [
+        {"op": "reg", "node": 2, "reg": 1, "amt": 3000000},
+        {"op": "send", "from": 0, "id": 1, "reg": 1, "paths": [[1, 2]], "amts": [3000000]}, {"op": "save", "node": 0},
+        {"op": "pump"}, {"op": "claim", "reg": 1}, {"op": "pump"},
+        {"op": "restart", "node": 0, "use": "stale", "allow_unclean": True}, {"op": "settle_chain"}, {"op": "settle"}]})]
 
 SELFTESTS = [("second-PaymentSent", _second_sent), ("PaymentSent-reported-as-failed", _sent_as_failed),
              ("recipient-never-claimed", _claim_dropped), ("fee-off-by-one", _fee_off),
              ("duplicate-id-accepted", _dup_accepted), ("blamed-channel-moved", _blame_moved),
-             ("PaymentFailed-before-last-failure", _failed_early)]
+             ("PaymentFailed-before-last-failure", _failed_early),
+             ("onchain-claim-without-PaymentSent", _onchain_claim_unreported),
+             ("PaymentFailed-with-HTLC-output-unspent", _failed_with_output_unspent),
+             ("forgotten-after-stale-restart-with-live-HTLC", _forgotten_with_live_htlc)]
 
 
 def run(tier, seed):
     thorough = tier == "thorough"
     return pc.run_check(
         "C03", tier, seed,
-        mc_cfgs=["PaySendMC.cfg", "PaySendMC2.cfg"] if not thorough else ["PaySendMCt.cfg", "PaySendMC2t.cfg", "PaySendMC3t.cfg", "PaySendMCr2.cfg"],
+        mc_cfgs=["PaySendMC.cfg", "PaySendMC2.cfg", "PaySendMCs.cfg"] if not thorough
+        else ["PaySendMCt.cfg", "PaySendMC2t.cfg", "PaySendMC3t.cfg", "PaySendMCr2.cfg", "PaySendMCst.cfg", "PaySendMCs3t.cfg"],
         compile_fn=lambda s, rng, consts: pc.compile_send_script(s, rng),
         random_fn=lambda rng, consts: pc.random_send_script(rng),
-        n_tlc=6000 if thorough else 700, n_rand=12000 if thorough else 800,
+        n_tlc=7500 if thorough else 900, n_rand=12000 if thorough else 1000,
         need={"ev_PaymentSent": 50, "ev_PaymentFailed": 50, "ev_PaymentPathFailed": 50, "restart": 30, "send_dup": 20,
-              "send_multipart": 50, "runs_with_repeated_PaymentSent": 3, "runs_with_repeated_PaymentFailed": 3, "restart_stale": 5, "pathfailed_hop3": 20, "quiet": 100},
+              "send_multipart": 50, "runs_with_repeated_PaymentSent": 3, "runs_with_repeated_PaymentFailed": 3, "restart_stale": 100, "pathfailed_hop3": 20, "quiet": 100,
+              "chain_commitment": 100, "chain_htlc_claimed": 20, "chain_htlc_timeout": 20, "quiet_chain_settled": 100},
         selftests=SELFTESTS, pick=pick, probes=PROBES,
         assumptions=pc.COMMON_ASSUMPTIONS + [
             "the channel named by PaymentPathFailed is accepted if it is the hop on which the failing node received the "
             "HTLC or the hop it could not use; it is compared with the ground truth only for the first use of a payment "
             "id and before any restart of the payer (later events may stem from an earlier use or be repetitions)",
-            "a restart from a snapshot the monitors have overtaken (LDK closes those channels) is driven only from snapshots "
-            "taken while the payer was idle (events handled, links up and empty), the run then ends with list_recent_payments; "
-            "and only if no payment id was used twice in the run; the other cases are recorded findings (probes "
-            "stale_restart_forgets_holding_cell_htlc, stale_restart_reused_id_not_readded)",
+            "a restart of the payer from a snapshot the monitors have overtaken (LDK closes those channels; the run goes on, "
+            "the chain settles: every broadcast transaction is mined as soon as it can confirm, block after block, until all "
+            "timelocks have expired) is driven unless the snapshot was taken while an HTLC of the payer waited in a holding "
+            "cell, a payment id was used twice in the run, or the payer's user handled a PaymentSent since the snapshot: those "
+            "are recorded findings (probes stale_restart_forgets_holding_cell_htlc, stale_restart_reused_id_not_readded, "
+            "stale_restart_fails_after_handled_payment_sent -- the last one is documented by the library, events/mod.rs "
+            "Event::PaymentFailed: 'In exceedingly rare cases ... MUST be ignored', but contradicts the property's 'never "
+            "contradicted'); only the payer restarts, no restart after a transaction was mined",
+            "after a close an HTLC counts as in flight while an output of its value sits unspent in the confirmed (or a not "
+            "yet confirmed) commitment; what a mined transaction shows (funding spend = commitment with its output values; "
+            "spend of a commitment output whose witness script commits to the payment hash, with or without the preimage) "
+            "is read off the transaction by the engine's miner; static_remote_key channels, no anchors, no reorgs; balances "
+            "are not compared once a channel was closed (closing fees)",
             "the balance check applies to payers that never receive or forward in the run; PaymentSent.fee_paid_msat = None "
             "disables it for that payer",
         ])
